@@ -45,6 +45,10 @@ def make_cases(tier, rng):
         for d in ["h2p", "p2h"]:
             ests = [g.est(rng, d, "accept_first", gap=rng.choice([2500, 3000]), start=0), g.est(rng, d, "dial_first", gap=4500, start=700)]
             add(pair, ests, "overlapping-dials")
+    # the ends of the id range (0: NextId never returns it, an application may pick it; 2^32-1), each direction
+    for pair in ["inproc", "process"]:
+        ests = [dict(g.est(rng, d, rng.choice(["accept_first", "dial_first"]), gap=rng.choice([0, 50])), id=id_) for d in ["h2p", "p2h"] for id_ in [0, 4294967295]]
+        add(pair, ests + [g.est(rng)], "extreme-ids")
     # unmatched peers followed by fresh pairs (the gRPC half of C09)
     for _ in range(1 if tier == "quick" else 6):
         ests = [g.est(rng, nopeer="dial_only"), g.est(rng, nopeer="accept_only"), g.est(rng, start=200), g.est(rng, start=5600)]
